@@ -336,6 +336,7 @@ func (g *flowGen) finish() {
 	p.NumFns = g.nfn
 	p.ConcurrentOK = true
 	p.GoTag = []string{"go1.21", "", "go1.20", "go1.18"}[p.nameOffset()%4]
+	p.PadLines = (p.nameOffset()/17)%4 == 0
 	p.InVarLit = !p.Generic && !p.InMethod && (p.nameOffset()/13)%6 == 0
 	if off := p.nameOffset() / 7; (p.Flow != nil && p.Flow.Concurrency || p.Par != nil && p.Par.Concurrency) && off%4 == 1 {
 		p.ConstConc = []int{2, 3, 4, 8}[(off/4)%4]
@@ -354,6 +355,9 @@ func (g *flowGen) finish() {
 	}
 	if p.InVarLit {
 		feat["directive-in-package-level-func-literal"] = true
+	}
+	if p.PadLines && !p.LineDirs {
+		feat["directive-straddles-line-98-100-or-998-1000"] = true
 	}
 	if p.ConstConc > 0 || p.ConstCOE > 0 {
 		feat["option-argument-is-a-constant-that-differs-under-the-cff-tag"] = true
